@@ -85,7 +85,7 @@ func newTreeMode() *ptMode {
 	return &ptMode{globals: map[*types.Var]string{}, tests: map[string]bool{}}
 }
 
-func writeTreeFacts(path string) error { return pcWrite(path, newTreeMode()) }
+func writeTreeFacts(path string) error { return pcWrite(path, newTreeMode(), nil) }
 
 func (m *ptMode) init(g *pcGen, l *concLoader) []string {
 	m.l = l
